@@ -47,6 +47,7 @@ type Engine struct {
 	declOf     map[*ssa.Function]*ast.FuncDecl
 	tmForNames *TypeMap
 	requested  map[string]bool
+	inlineFails map[*ssa.Function]bool
 	gnnCache   map[*ssa.Global]bool
 }
 
@@ -61,13 +62,14 @@ func __assume(cond bool) {}
 func __mod[T any](p *T) {}
 func __modall[T any](x T) {}
 func __same[T any](a, b T) bool { panic("spec") }
+func __cases(x int, vals ...int) bool { return true }
 `
 
 func loadEngine(repo string, patterns []string, extraOverlay map[string][]byte) (*Engine, error) {
 	eng := &Engine{repo: repo, cfiles: map[string]*ContractFile{}, specs: map[*ssa.Function]*FuncSpec{}, overlay: map[string][]byte{},
 		nodeAt: map[*ssa.Function]map[token.Pos]ast.Node{}, callOrd: map[*ssa.Function]map[ssa.Instruction]int{},
 		escCache: map[*ssa.Function]map[*ssa.Alloc]bool{}, mwCache: map[*ssa.Function]*modSet{}, mwBusy: map[*ssa.Function]bool{},
-		oldCache: map[*ssa.Function]bool{}, inlCache: map[*ssa.Function]int{}, declOf: map[*ssa.Function]*ast.FuncDecl{}}
+		oldCache: map[*ssa.Function]bool{}, inlCache: map[*ssa.Function]int{}, declOf: map[*ssa.Function]*ast.FuncDecl{}, inlineFails: map[*ssa.Function]bool{}}
 	for k, v := range extraOverlay {
 		eng.overlay[k] = v
 	}
@@ -439,12 +441,36 @@ func (eng *Engine) genOverlay(p *packages.Package, cf *ContractFile, fset *token
 			}
 			for i := range fs.Asserts {
 				a := &fs.Asserts[i]
+				if a.AtReturn {
+					var rets []*ast.ReturnStmt
+					ast.Inspect(fi.decl.Body, func(n ast.Node) bool {
+						switch x := n.(type) {
+						case *ast.FuncLit:
+							return false
+						case *ast.ReturnStmt:
+							rets = append(rets, x)
+						}
+						return true
+					})
+					if a.Ordinal < 1 || a.Ordinal > len(rets) {
+						return nil, fmt.Errorf("%s:%d: %s has %d return statements, contract names return %d", cf.Path, a.Clause.Line, fs.Name, len(rets), a.Ordinal)
+					}
+					pos := rets[a.Ordinal-1].Pos()
+					pp := fset.Position(pos)
+					a.File, a.Off = pp.Filename, pp.Offset
+					if err := emit(&a.Clause, fmt.Sprintf("assert_return_%d", a.Ordinal), false, pos); err != nil {
+						return nil, err
+					}
+					continue
+				}
 				calls := collectCalls(fi.decl, a.Callee)
 				if a.Ordinal < 1 || a.Ordinal > len(calls) {
 					return nil, fmt.Errorf("%s:%d: %s has %d calls of %s, contract names call %d", cf.Path, a.Clause.Line, fs.Name, len(calls), a.Callee, a.Ordinal)
 				}
 				pos := calls[a.Ordinal-1].Pos()
 				a.Clause.Pos = pos
+				lp := fset.Position(calls[a.Ordinal-1].Lparen)
+				a.File, a.Off = lp.Filename, lp.Offset
 				when := "before"
 				if !a.Before {
 					when = "after"
@@ -1292,7 +1318,7 @@ func (eng *Engine) addrWrites(ms *modSet, ne *Exec, fn *ssa.Function, addr ssa.V
 			}
 			if et != nil && isStructT(et) {
 				eng.addTypeWrites(ms, ne, et)
-			} else if et != nil && !isArrayT(et) {
+			} else if et != nil {
 				n, s := ne.memArr(et)
 				ms.heap[n] = s
 			} else {
